@@ -646,12 +646,13 @@ class SF:
         if z3.is_rational_value(bv):
             q = a.v / bv if bv.as_fraction() != 0 else _ZERO
         else:
-            key = ('quo', canon(a.v).get_id(), canon(bv).get_id())
+            ca, cb = canon(a.v), canon(bv)
+            EX._keep.append((ca, cb))            # the ASTs must stay alive for as long as their ids are cache keys (z3 recycles ids of freed ASTs)
+            key = ('quo', ca.get_id(), cb.get_id())
             q = EX.apps.get(key)
             if q is None:
                 q = z3.Real(EX.fresh_name('quo'))
                 EX.apps[key] = q
-                EX._keep.append((canon(a.v), canon(bv)))
                 if AX.get('div_axiom', True):
                     EX.add_axiom(z3.Implies(bv != 0, q * bv == a.v), 'div: q*b==a (b!=0)')
                 else:
@@ -993,12 +994,12 @@ def sym_trunc_int(x, strict=True, nan_value=None):
     if strict and sp is not False and bool(mkbool(sp)):
         raise ValueError("cannot convert float NaN/inf to integer")
     cv = canon(x.v)
+    EX._keep.append(cv)
     key = ('trunc', cv.get_id())
     n = EX.apps.get(key)
     if n is None:
         n = z3.Int(EX.fresh_name('trunc'))
         EX.apps[key] = n
-        EX._keep.append(cv)
         nr = z3.ToReal(n)
         rel = z3.If(x.v >= 0, z3.And(nr <= x.v, x.v < nr + 1), z3.And(nr - 1 < x.v, x.v <= nr))
         EX.add_axiom(rel if sp is False else z3.Implies(z3.Not(bz3(sp)), rel), 'int(): truncation')
@@ -1227,16 +1228,16 @@ def f32_round(x):
         return c
     # idempotent and functional: a value that is already the result of a float32 store is representable (stored unchanged), and the same
     # term always rounds to the same stored value
-    key = ('f32', canon(x.v).get_id())
+    if _f32_exact(x.v):
+        return x
+    cx = canon(x.v)
+    EX._keep.append(cx)          # keep the AST alive: its id is the cache key
+    key = ('f32', cx.get_id())
     hit = EX.apps.get(key)
     if hit is not None:
         return SF(x.nan, hit, x.pinf, x.ninf)
-    if _f32_exact(x.v):
-        return x
     r = z3.Real(EX.fresh_name('f32'))
     EX.apps[key] = r
-    EX.apps[('f32', r.get_id())] = r
-    EX._keep.append(canon(x.v))
     eps = z3.RealVal(Fraction(1, 2 ** 25))
     av = z3.If(x.v >= 0, x.v, -x.v)
     EX.add_axiom(z3.And(r - x.v <= eps * av, x.v - r <= eps * av), 'float32 store: |stored - x| <= 2^-25 |x| (opt-in)')
